@@ -1,87 +1,138 @@
 package main
 
-// props_defs.go — the 18 properties.
+// props_defs.go — the 18 properties: which rules decide which clauses (DESIGN §4).
 
-func init() {
-	properties["C18"] = propDef{run: func(c *Ctx) *PropertyRun {
-		return &PropertyRun{Level: "proof", Trusted: trustedBase, Assume: commonAssumptions,
-			Rules: []*RuleResult{c.rule("R1", ruleR1), c.rule("R1b", ruleR1b), c.rule("R1c", ruleR1c)},
-			Explain: "Decides the property completely modulo the trusted base: a conservative interprocedural effect/alias analysis (E1) over go/ssa shows that every read-only operation of every container, node and iterator type performs no store into container/node memory, into an iterator it did not create, or into a global, on any path and for all inputs; by the Go memory model (a data race needs a write) concurrent readers cannot race, and each call's result is a function of memory nobody writes. R1b: every call through a func value passes only opaque elements; R1c: iterators are never stored in shared memory."}
-	}}
-	properties["C16"] = propDef{run: func(c *Ctx) *PropertyRun {
-		return &PropertyRun{Level: "proof", Trusted: trustedBase, Assume: commonAssumptions,
-			Rules: []*RuleResult{c.rule("R2a", ruleR2a), c.rule("R2b", ruleR2b), c.rule("R2c", ruleR2c),
-				filter(c.rule("R1", ruleR1), "R1", "PURE: GetSortedValues[Func] write nothing", 2, func(o Obligation) bool {
-					return o.Key == "R1:containers.GetSortedValues" || o.Key == "R1:containers.GetSortedValuesFunc"
-				})},
-			Explain: "Decides the aliasing sentences completely modulo the trusted base: Values()/Keys() of all containers return a slice allocated by the call that is neither rooted in nor retained by any parameter/global (R2a); no exported function retains a caller's slice argument in container memory, a global or its result (R2b); the slice GetSortedValues[Func] sorts is fresh for the CHA join of all Values() implementations and the functions write nothing else (R2c, R1). Not decided: that the output is sorted (contract of slices.Sort, trusted)."}
-	}}
-	properties["C13"] = propDef{run: func(c *Ctx) *PropertyRun {
-		return &PropertyRun{Level: "other", Trusted: trustedBase, Assume: commonAssumptions,
-			Rules: []*RuleResult{c.rule("R18", ruleR18), c.rule("R2d", ruleR2d)},
-			Explain: "partial"}
-	}}
-	properties["C17"] = propDef{run: func(c *Ctx) *PropertyRun {
-		return &PropertyRun{Level: "other", Trusted: trustedBase, Assume: commonAssumptions,
-			Rules: []*RuleResult{c.rule("R3", ruleR3), c.rule("R4", ruleR4), c.rule("R5", ruleR5), c.rule("R6", ruleR6), c.rule("R7", ruleR7)},
-			Explain: "partial"}
-	}}
-	properties["C11"] = propDef{run: func(c *Ctx) *PropertyRun {
-		return &PropertyRun{Level: "other", Trusted: trustedBase, Assume: commonAssumptions,
-			Rules: []*RuleResult{c.rule("R9", ruleR9)},
-			Explain: "partial"}
-	}}
-	properties["C12"] = propDef{run: func(c *Ctx) *PropertyRun {
-		return &PropertyRun{Level: "other", Trusted: trustedBase, Assume: commonAssumptions,
-			Rules: []*RuleResult{c.rule("R8", ruleR8), c.rule("R6", ruleR6)},
-			Explain: "partial"}
-	}}
-	properties["C03"] = propDef{run: func(c *Ctx) *PropertyRun {
-		return &PropertyRun{Level: "other", Trusted: trustedBase, Assume: commonAssumptions,
-			Rules: []*RuleResult{c.rule("R5", ruleR5), c.rule("R7", ruleR7)},
-			Explain: "partial"}
-	}}
-	properties["C02"] = propDef{run: func(c *Ctx) *PropertyRun {
-		return &PropertyRun{Level: "other", Trusted: trustedBase, Assume: commonAssumptions,
-			Rules: []*RuleResult{c.rule("R13", ruleR13), rolesFor(c, "C02"), c.rule("R10", ruleR10)},
-			Explain: "partial"}
-	}}
-	properties["C15"] = propDef{run: func(c *Ctx) *PropertyRun {
-		return &PropertyRun{Level: "other", Trusted: trustedBase, Assume: commonAssumptions,
-			Rules: []*RuleResult{c.rule("R12", ruleR12), c.rule("R12g", ruleR12g)},
-			Explain: "partial"}
-	}}
-	properties["C09"] = propDef{run: func(c *Ctx) *PropertyRun {
-		return &PropertyRun{Level: "other", Trusted: trustedBase, Assume: commonAssumptions,
-			Rules: []*RuleResult{c.rule("R15", ruleR15)},
-			Explain: "partial"}
-	}}
-	properties["C10"] = propDef{run: func(c *Ctx) *PropertyRun {
-		return &PropertyRun{Level: "other", Trusted: trustedBase, Assume: commonAssumptions,
-			Rules: []*RuleResult{c.rule("R16", ruleR16)},
-			Explain: "partial"}
-	}}
-	properties["C05"] = propDef{run: func(c *Ctx) *PropertyRun {
-		return &PropertyRun{Level: "other", Trusted: trustedBase, Assume: commonAssumptions,
-			Rules: []*RuleResult{c.rule("R19", ruleR19)},
-			Explain: "partial"}
-	}}
-	properties["C08"] = propDef{run: func(c *Ctx) *PropertyRun {
-		return &PropertyRun{Level: "other", Trusted: trustedBase, Assume: commonAssumptions,
-			Rules: []*RuleResult{c.rule("R14", ruleR14)},
-			Explain: "partial"}
-	}}
-	properties["C14"] = propDef{run: func(c *Ctx) *PropertyRun {
-		return &PropertyRun{Level: "other", Trusted: trustedBase, Assume: commonAssumptions,
-			Rules: []*RuleResult{c.rule("R17", ruleR17)},
-			Explain: "partial"}
-	}}
+import "strings"
+
+func pr(level, explain string, rules ...*RuleResult) *PropertyRun {
+	return &PropertyRun{Level: level, Trusted: trustedBase, Assume: commonAssumptions, Rules: rules, Explain: explain}
 }
 
+func prefixFilter(r *RuleResult, rule, title string, floor int, prefixes ...string) *RuleResult {
+	return filter(r, rule, title, floor, func(o Obligation) bool {
+		for _, p := range prefixes {
+			if strings.HasPrefix(o.Key, p) {
+				return true
+			}
+		}
+		return false
+	})
+}
+
+const notBehaviour = " These are necessary structural clauses of the property, decided for all paths of the current source; the behaviour as a whole (see 'Not decided') is not claimed."
+
 func init() {
+	properties["C01"] = propDef{run: func(c *Ctx) *PropertyRun {
+		return pr("other", "Decided: (R12b–e) the cached size of every tree moves only with the structure — replace-on-equal paths of Put touch neither counter nor links and report 'nothing added', decrements are guarded by 'found', increments travel with allocate-and-link; (R11) every child-link store has its parent-link twin; (R10) the red-black rotations and fix-up arms are mirror images; (R15) LinkedHashMap table and order list gain/lose a key on the same paths; (R16) BidiMap pairing; (R24) HashMap is the Go map; (R20) TreeMap delegates each operation to the same-named tree operation. Not decided: that a lookup after an arbitrary history finds the last value — the correctness of the red-black / AVL / B-tree algorithms themselves (which case fires for which shape); a recolouring mistake that keeps links, counters and mirror arms consistent is not detected."+notBehaviour,
+			c.rule("R12", ruleR12), c.rule("R11", ruleR11),
+			prefixFilter(c.rule("R10", ruleR10), "R10", "MIRROR: red-black rotations, fix-up arms, Put/lookup arms; AVL GetNode/put/remove arms", 13, "R10:trees/redblacktree.Tree.rotate", "R10:trees/redblacktree.Tree.insertCase", "R10:trees/redblacktree.Tree.deleteCase", "R10:trees/redblacktree.Tree.replaceNode", "R10:trees/redblacktree.Node.sibling", "R10:trees/redblacktree.Tree.Put", "R10:trees/redblacktree.Tree.lookup", "R10:trees/avltree.Tree.GetNode", "R10:trees/avltree.Tree.put", "R10:trees/avltree.Tree.remove"),
+			prefixFilter(c.rule("R15", ruleR15), "R15", "LINKED: LinkedHashMap table ↔ order list", 5, "R15a:maps/linkedhashmap", "R15b:maps/linkedhashmap", "R15c:maps/linkedhashmap", "R15w:maps/linkedhashmap", "R15d:maps/linkedhashmap"),
+			c.rule("R16", ruleR16), prefixFilter(c.rule("R24", ruleR24), "R24", "HASH: HashMap is the Go map", 5, "R24:maps/hashmap"), rolesFor(c, "C01"))
+	}}
+	properties["C02"] = propDef{run: func(c *Ctx) *PropertyRun {
+		return pr("other", "Decided: (R13a) all 10 comparator-driven descents relate probe and stored key with one orientation (less → left/low, greater → right/high, equal → found); (R13b) keys are never compared with Go operators in comparator-ordered packages; (R20) Min/Max/Floor/Ceiling/Values/Keys delegate to the matching tree operation; (R10) Floor↔Ceiling, Left↔Right, Min↔Max, iterator Next↔Prev, rotations and fix-up arms are mirror images under μ. Not decided: that rotations/splits/merges preserve the in-order sequence; sortedness of Keys() as such; B-tree per-node binary-search bounds; behaviour under a comparator that is not a strict weak order."+notBehaviour,
+			c.rule("R13", ruleR13), rolesFor(c, "C02"), c.rule("R10", ruleR10))
+	}}
+	properties["C03"] = propDef{run: func(c *Ctx) *PropertyRun {
+		return pr("other", "Decided: (R5a) every use of an index parameter of Get/Remove/Insert/Set/Swap on the three lists is dominated by withinRange(index)==true; (R5b) with an out-of-range index nothing is written except the documented append (a call to Add guarded by index == size); (R23w) withinRange ≡ 0 <= i < Size() on all three; (R7) an empty variadic list leaves no nil pointer to dereference; (R12b,c,e) the linked lists' size counters move only with allocate-and-link / guarded unlink; (R23s) Sort = SortFunc(Values(), comparator) then Clear; Add; (R23c) Contains(xs...) exactness; (R20) Append ≡ Add. Not decided: that pointer surgery in the linked Insert/Remove yields the spliced sequence; traversal-direction arithmetic; array-list grow/shrink thresholds; IndexOf results."+notBehaviour,
+			c.rule("R5", ruleR5), c.rule("R7", ruleR7),
+			prefixFilter(c.rule("R12", ruleR12), "R12", "SIZE: linked-list counters", 6, "R12b:lists/", "R12c:lists/", "R12e:lists/"),
+			prefixFilter(c.rule("R23", ruleR23), "R23", "LISTS: Contains, Sort, withinRange of the three lists", 9, "R23c:lists/", "R23s:lists/", "R23w:lists/"),
+			rolesFor(c, "C03"))
+	}}
+	properties["C04"] = propDef{run: func(c *Ctx) *PropertyRun {
+		return pr("other", "Decided: (R15) LinkedHashSet's table and order list gain/lose a member on exactly the same paths, with the membership test inside the loop (a duplicate inside one Add call is covered); (R24) HashSet.Add/Remove are one Go-map assignment/delete per argument; (R20) TreeSet delegates Add→Put, Remove→Remove, Contains→Get, Size→Size, Values→Keys, Clear→Clear; (R23c) Contains(xs...) of all three sets advances only after a hit, returns false only after a miss and true only when all values were found (true for no arguments); (R12f) Empty/Size/Values length derive from one size term. Not decided: Go map semantics (trusted); TreeSet inherits C01's remainder."+notBehaviour,
+			prefixFilter(c.rule("R15", ruleR15), "R15", "LINKED: LinkedHashSet table ↔ order list", 5, "R15a:sets/linkedhashset", "R15b:sets/linkedhashset", "R15c:sets/linkedhashset", "R15w:sets/linkedhashset", "R15d:sets/linkedhashset"),
+			prefixFilter(c.rule("R24", ruleR24), "R24", "HASH: HashSet is the Go map", 2, "R24:sets/hashset"),
+			prefixFilter(c.rule("R23", ruleR23), "R23", "MEMBERSHIP: Contains(xs...) of the three sets", 3, "R23c:sets/"),
+			prefixFilter(c.rule("R12", ruleR12), "R12", "SIZE: Empty/Size/Values of the three sets", 6, "R12f:sets/"),
+			rolesFor(c, "C04"))
+	}}
+	properties["C05"] = propDef{run: func(c *Ctx) *PropertyRun {
+		return pr("other", "Decided: (R19a) each stack pushes and pops at the same end of its list, each queue enqueues at the tail and dequeues at the head, Peek and Pop/Dequeue read the same index and Pop/Dequeue removes the index it read; (R19b) ring: every advance of start/end is paired with its wrap on every path, the ring slice is indexed only through start/end/(start+i)%capacity, Enqueue on a full ring evicts before writing and never otherwise, Dequeue/Peek on an empty ring change nothing and return (zero,false); (R12f) Full() ≡ Size()==capacity, Empty ≡ Size()==0; (R12b,c) the ring's size; (R20) the adapters' Size/Empty/Clear/Values delegate to the list. Not decided: the order of values as such (list semantics, C03's remainder); calculateSize arithmetic; agreement of ArrayStack.Values() order with removal order (reversed fill needs affine index reasoning)."+notBehaviour,
+			c.rule("R19", ruleR19),
+			prefixFilter(c.rule("R12", ruleR12), "R12", "SIZE: ring counter, Full/Empty/Values of stacks and queues", 16, "R12b:queues/circularbuffer", "R12c:queues/circularbuffer", "R12e:queues/circularbuffer", "R12f:queues/", "R12f:stacks/"),
+			rolesFor(c, "C05"))
+	}}
+	properties["C06"] = propDef{run: func(c *Ctx) *PropertyRun {
+		return pr("other", "Decided: (R8) the loaders of BinaryHeap and PriorityQueue insert through the heap's own insertion path (Push re-heapifies) — the defect named in the property; (R22) Peek reads slot 0; Pop returns slot 0 read before Swap(0,n-1); Remove(n-1); bubbleDown and leaves an empty heap alone; Push(v) = Add; bubbleUp and Push(vs...) = Add*; bubbleDownIndex(i) for i from n/2 down to 0; the sift routines swap only on a strict comparator verdict and follow the element they move; Values() is filled from the heap's own iterator; the queue's heap is built with the queue's comparator; (R20) PriorityQueue delegates every operation to the heap. Not decided: the heap order itself (sift index arithmetic, comparator signs — a sign flip fails the existing 10 000-element test), multiset preservation, level-sorted iterator values."+notBehaviour,
+			prefixFilter(c.rule("R8", ruleR8), "R8", "LOADER: heap / priority-queue FromJSON", 6, "R8:trees/binaryheap", "R8a:trees/binaryheap", "R8b:trees/binaryheap", "R8c:trees/binaryheap", "R8d:trees/binaryheap", "R8e:trees/binaryheap", "R8:queues/priorityqueue", "R8e:queues/priorityqueue"),
+			c.rule("R22", ruleR22), rolesFor(c, "C06"))
+	}}
 	properties["C07"] = propDef{run: func(c *Ctx) *PropertyRun {
-		return &PropertyRun{Level: "other", Trusted: trustedBase, Assume: commonAssumptions,
-			Rules: []*RuleResult{c.rule("R21", ruleR21), c.rule("R11", ruleR11)},
-			Explain: "partial"}
+		return pr("other", "Decided: (R11) parent links mirror child links — a sentence of the statement itself: every child-link store in the three trees is paired with the parent-link store on the same path; (R21) the rebalancing machinery is wired on every path: red-black Put/Remove pass insertCase1/deleteCase1, the case chains hand over without dropping out; AVL balance factors are written only by the fix/rotation family, direct link changes report 'height changed', every reported change is answered by putFix/removeFix on the frame's own link and passed up, rotations are stored back; B-tree nodes that gained an entry go to split, nodes that lost one go to rebalance (or are a lending sibling / the collapsing root), borrow and merge move children with entries. Not decided: every numeric claim — comparator-call bounds, height bounds, min/max occupancy, equal leaf depth, colour invariants; these quantify over reachable shapes and no sound static argument in reach bounds them."+notBehaviour,
+			c.rule("R21", ruleR21), c.rule("R11", ruleR11))
+	}}
+	properties["C08"] = propDef{run: func(c *Ctx) *PropertyRun {
+		return pr("other", "Decided: (R14) all 18 iterator types follow the cursor protocol: index cursors step exactly when inside the bound and saturate at n / -1, report true exactly when the new index is in 0..n-1, Begin/End store -1/n, linked cursors keep the element pointer in step, wrappers forward, tree cursors start at leftmost/rightmost and saturate at their sentinels, First ≡ Begin;Next, Last ≡ End;Prev, NextTo/PrevTo are the canonical search loop over (Index|Key, Value); (R10) Next↔Prev, First↔Last, NextTo↔PrevTo mirror images; (R11) the Parent links tree cursors climb; (R1) Index/Key/Value write nothing, movers write only the iterator. Not decided: that the element reached at position i is Values()[i]; B-tree climb/descend index logic; heap level-sort."+notBehaviour,
+			c.rule("R14", ruleR14),
+			prefixFilter(c.rule("R10", ruleR10), "R10", "MIRROR: iterator Next/Prev, First/Last, NextTo/PrevTo", 32, "R10:trees/redblacktree.Iterator", "R10:trees/avltree.Iterator", "R10:trees/avltree.Node", "R10:lists/", "R10:maps/", "R10:queues/", "R10:sets/", "R10:stacks/", "R10:trees/binaryheap", "R10:trees/btree.Iterator"),
+			prefixFilter(c.rule("R11", ruleR11), "R11", "PARENTLINK: the links tree cursors climb", 26, "R11:"),
+			filter(c.rule("R1", ruleR1), "R1", "PURE: iterator methods write only the iterator", 150, func(o Obligation) bool { return strings.Contains(o.Key, "Iterator).") }))
+	}}
+	properties["C09"] = propDef{run: func(c *Ctx) *PropertyRun {
+		return pr("other", "Decided in full as a who-may-call / pairing property: (R15a) the order list is mutated only by Append under 'key not in table', Remove(IndexOf(key)) under 'key in table' together with delete(table,key), and Clear together with clearing the table — so an existing key is never moved and a re-inserted key goes last; (R15b) table and list change on exactly the same paths; (R15c) every enumerator (Keys, Values, iterator, Each…, String, ToJSON) walks the list and never ranges over the Go map; (R15w) the two fields are assigned only in constructors/Clear. Not decided: doublylinkedlist.Append/Remove/IndexOf themselves (C03's remainder)."+notBehaviour,
+			c.rule("R15", ruleR15))
+	}}
+	properties["C10"] = propDef{run: func(c *Ctx) *PropertyRun {
+		return pr("other", "Decided: (R16) for both BidiMaps, on every path of Put the pair held by the key is evicted from the inverse map by the looked-up value and the pair holding the value is evicted from the forward map by the looked-up key, exactly when the respective lookup found something, and both evictions precede both insertions (key→value forward, value→key inverse); Remove deletes both directions in one found-guarded region, the inverse one keyed by the looked-up value, and does nothing for an absent key; Clear clears both; Get/Size/Keys read the forward map, GetKey/Values the inverse map; (R8) their loaders insert through Put. Not decided: the underlying map/tree correctness (C01's remainder)."+notBehaviour,
+			c.rule("R16", ruleR16),
+			prefixFilter(c.rule("R8", ruleR8), "R8", "LOADER: BidiMap FromJSON inserts through Put", 10, "R8:maps/hashbidimap", "R8a:maps/hashbidimap", "R8b:maps/hashbidimap", "R8c:maps/hashbidimap", "R8d:maps/hashbidimap", "R8:maps/treebidimap", "R8a:maps/treebidimap", "R8b:maps/treebidimap", "R8c:maps/treebidimap", "R8d:maps/treebidimap"))
+	}}
+	properties["C11"] = propDef{run: func(c *Ctx) *PropertyRun {
+		return pr("other", "Decided: (R9a) all 42 MarshalJSON/UnmarshalJSON are pure forwarders to ToJSON/FromJSON; (R9b) ToJSON serialises the logical view (Values(), the own iterator, a storage field that Values() copies, or the field FromJSON/Size delegate to) — never physical storage whose meaning needs other fields; (R9c) writer and reader use the same JSON kind and it is the kind the property assigns; (R9d) the slice handed to json.Marshal is never nil (an empty value container is [], not null); (R9e) hand-written objects use string keys; (R9f) the raw input of FromJSON reaches only the JSON decoder; (R8e) a forwarding loader is sound for its type. Not decided: equality of the reloaded contents (follows from C01–C06 + R8 only informally); element encodability."+notBehaviour,
+			c.rule("R9", ruleR9),
+			prefixFilter(c.rule("R8", ruleR8), "R8", "LOADER: forwarders are sound (R8e)", 6, "R8e:"))
+	}}
+	properties["C12"] = propDef{run: func(c *Ctx) *PropertyRun {
+		return pr("other", "Decided: for all 21 FromJSON — loaders decode into a fresh temporary, never live memory (R8a: atomic on error, replace not merge); every write to the receiver is guarded by err == nil (R8b); the receiver's Clear dominates every insertion (R8c: no prior element survives); elements enter only through the container's own exported insertion methods (R8d: sets deduplicate, trees sort, BidiMaps stay one-to-one, the ring keeps the last capacity-many, the heap re-heapifies — by the guarantees of those methods); forwarding loaders are sound because every insertion method of the type is a pure forwarder to the same field (R8e); (R6) a Go-map field that is assigned to can never become nil (the input null cannot make a later Put panic). Not decided: arbitrary follow-up operation sequences beyond 'inserted through the own insertion method' (then C01/C04 apply)."+notBehaviour,
+			c.rule("R8", ruleR8), c.rule("R6", ruleR6))
+	}}
+	properties["C13"] = propDef{run: func(c *Ctx) *PropertyRun {
+		return pr("other", "Decided: (R18) for the three sets, Intersection has one loop per operand that adds the current element iff the other operand contains it (both arms, selected by comparing sizes), Union adds every element of both operands in two consecutive loops, Difference adds an element of the receiver iff the argument does not contain it; membership is tested on the right operand with the current element; the result is built by the set's constructor (TreeSet: with the operands' comparator, loops reachable only after the comparators were found identical); (R1) neither operand is written on any path — in particular when both are the same object; (R2d) the result embeds no pointer, slice or map of an operand. Not decided: membership exactness beyond the arm structure (rests on Contains/Add, C04)."+notBehaviour,
+			c.rule("R18", ruleR18), c.rule("R2d", ruleR2d),
+			filter(c.rule("R1", ruleR1), "R1", "PURE: set algebra writes no operand", 9, func(o Obligation) bool {
+				return strings.HasSuffix(o.Key, ").Intersection") || strings.HasSuffix(o.Key, ").Union") || strings.HasSuffix(o.Key, ").Difference")
+			}))
+	}}
+	properties["C14"] = propDef{run: func(c *Ctx) *PropertyRun {
+		return pr("other", "Decided: (R17) all 48 enumerable functions are the canonical loop over the receiver's own iterator: one Next() per round, f receives exactly (Index()|Key(), Value()) of the current position, Each continues unconditionally, Any/All decide at the first hit/miss, Find returns the current pair at the first hit and (-1|zero, zero) otherwise, Select inserts the current pair iff f accepted it, Map inserts f's result, and the derived container is built with the receiver's comparator(s) in role order; (R1) the receiver is never written; (R2d) the result shares no state with it. Not decided: the containers' own insertion semantics (C01/C03/C04)."+notBehaviour,
+			c.rule("R17", ruleR17), c.rule("R2d", ruleR2d),
+			filter(c.rule("R1", ruleR1), "R1", "PURE: enumerable functions write nothing shared", 48, func(o Obligation) bool {
+				for _, m := range []string{").Each", ").Any", ").All", ").Find", ").Select", ").Map"} {
+					if strings.HasSuffix(o.Key, m) {
+						return true
+					}
+				}
+				return false
+			}))
+	}}
+	properties["C15"] = propDef{run: func(c *Ctx) *PropertyRun {
+		return pr("other", "Decided: (R12f) on all 21 containers Empty() ≡ Size()==0, Full() ≡ Size()==capacity and the slice returned by Values()/Keys() is allocated with length Size() — all derive from one size term after forwarder inlining; (R12b–e) the six cached counters take only the forms old±1, old+len, 0, recomputation; decrements are guarded by success (never negative), increments travel with allocate-and-link; (R12cfg) comparator / B-tree order / ring capacity are written only while constructing a fresh container, so Clear keeps them; (R12clear) Clear resets what Size() and the traversal start from and forwards to Clear of every contained container; (R12str) String() starts with the container's documented name; (R1) every observer is pure. Not decided: 'behaves exactly like a fresh one after Clear' beyond those resets (requiring every field to be reset would alarm on benign edits — DESIGN §5)."+notBehaviour,
+			c.rule("R12", ruleR12), c.rule("R12g", ruleR12g),
+			filter(c.rule("R1", ruleR1), "R1", "PURE: Size/Empty/Values/Keys/String write nothing", 99, func(o Obligation) bool {
+				for _, m := range []string{").Size", ").Empty", ").Values", ").Keys", ").String", ").Full"} {
+					if strings.HasSuffix(o.Key, m) {
+						return true
+					}
+				}
+				return false
+			}))
+	}}
+	properties["C16"] = propDef{run: func(c *Ctx) *PropertyRun {
+		return pr("proof", "Decides the aliasing sentences completely modulo the trusted base: Values()/Keys() of all containers return a slice allocated by the call that is neither rooted in nor retained by any parameter/global (R2a); no exported function retains a caller's slice argument in container memory, a global or its result (R2b); the slice GetSortedValues[Func] sorts is fresh for the CHA join of all Values() implementations and the functions write nothing else (R2c, R1). Not decided: that the output is sorted (contract of slices.Sort, trusted).",
+			c.rule("R2a", ruleR2a), c.rule("R2b", ruleR2b), c.rule("R2c", ruleR2c),
+			filter(c.rule("R1", ruleR1), "R1", "PURE: GetSortedValues[Func] write nothing", 2, func(o Obligation) bool {
+				return o.Key == "R1:containers.GetSortedValues" || o.Key == "R1:containers.GetSortedValuesFunc"
+			}))
+	}}
+	properties["C17"] = propDef{run: func(c *Ctx) *PropertyRun {
+		return pr("other", "Decided: (R3) no library function can reach fmt.Print*/print/println/log/os.Stdout/os.Stderr — complete for the silence clause; (R4) explicit panics/exits exist only in the two documented constructors, guarded by the documented bound — complete for explicit panics; (R5a) every index parameter of the three lists is range-checked before use; (R6) a Go-map field that is assigned to can never be nil; (R7) an empty variadic list leaves no nil pointer to dereference; (R8a) the JSON decoder never writes live container state (it cannot corrupt it into a panicking one). Not decided: implicit panics that depend on heap-shape invariants (nil sibling in deleteCase*, Children[index] in the B-tree — a generic may-be-nil analysis drowns in false alarms there and a sound one needs the tree invariants); termination of the loops."+notBehaviour,
+			c.rule("R3", ruleR3), c.rule("R4", ruleR4), c.rule("R5", ruleR5), c.rule("R6", ruleR6), c.rule("R7", ruleR7),
+			prefixFilter(c.rule("R8", ruleR8), "R8", "LOADER: the decoder never targets live state (R8a)", 14, "R8a:"))
+	}}
+	properties["C18"] = propDef{run: func(c *Ctx) *PropertyRun {
+		return pr("proof", "Decides the property completely modulo the trusted base: a conservative interprocedural effect/alias analysis (E1) over go/ssa shows that every read-only operation of every container, node and iterator type performs no store into container/node memory, into an iterator it did not create, or into a global, on any path and for all inputs; by the Go memory model (a data race needs a write) concurrent readers cannot race, and each call's result is a function of memory nobody writes. R1b: every call through a func value passes only opaque elements; R1c: iterators are never stored in shared memory; A5 scan: no unsafe/cgo/linkname.",
+			c.rule("R1", ruleR1), c.rule("R1b", ruleR1b), c.rule("R1c", ruleR1c))
 	}}
 }
